@@ -49,8 +49,8 @@ N_SHARDS = 16
 
 
 def plan(tier, seed):
-    sets = 6000 if tier == "quick" else 600000
-    histories = 300 if tier == "quick" else 30000
+    sets = 20000 if tier == "quick" else 2400000
+    histories = 1000 if tier == "quick" else 120000
     return [{"part": p, "parts": N_SHARDS, "sets": sets, "histories": histories, "label": "messages-%d" % p} for p in range(N_SHARDS)]
 
 
